@@ -126,6 +126,20 @@ def c05_glue(case):
         kind = 'imag-only'
     maxnz = 2 if case['klass'] == 'Hessian' else (2 if case['klass'] == 'Derivative' else 1)
     bad = _c05_judge(calls, x, kind, max(steps), maxnz)
+    # history: the same object called twice with different extra arguments must forward each call's own arguments
+    seen = []
+
+    def g(z, *a, **k):
+        seen.append((a, tuple(sorted(k.items()))))
+        return f(z)
+    obj2 = K(g, **dict(kw, method=method, order=case['order'], **({'n': case['n']} if case['klass'] == 'Derivative' else {})))
+    obj2(x, 'A1', 7, key='K')
+    n1 = len(seen)
+    obj2(x, 'A2', 8, 'more', key='K2', other=3)
+    wrong = [s for s in seen[:n1] if s != (('A1', 7), (('key', 'K'),))] + \
+            [s for s in seen[n1:] if s != (('A2', 8, 'more'), (('key', 'K2'), ('other', 3)))]
+    if wrong:
+        bad = list(bad) + [dict(second_call_received=repr(wrong[0]), expected="('A2', 8, 'more'), key='K2', other=3", calls_first=n1, calls_total=len(seen))]
     return dict(reproduced=bool(bad), kind=kind, calls=len(calls), problems=bad[:5])
 
 
